@@ -96,15 +96,24 @@ def gen_spec(rnd, dotted=None):
     return spec
 
 
-def write_and_parse(spec, acc, case=None):
+def write_and_parse(spec, acc, case=None, path=None, keep_mtime_of=None):
+    """spec["newline"] (optional): line ending the file is saved with.  path / keep_mtime_of: the diagram is written to
+    a path that held another diagram before, and the file's timestamps are set back to those of that earlier file
+    (a timestamp-preserving copy, a file system with coarse timestamps)."""
     from pytestarch.diagram_extension.diagram_parser import PumlParser
 
     text = rpuml.render(spec)
     d = os.path.join(trees.scratch_dir(), "puml")
     os.makedirs(d, exist_ok=True)
-    path = os.path.join(d, f"d{acc.evaluations}.puml")
-    with open(path, "w") as f:
-        f.write(text)
+    keep = path is not None
+    path = path or os.path.join(d, f"d{acc.evaluations}.puml")
+    nl = spec.get("newline")
+    with open(path, "w", newline="") as f:
+        f.write(text.replace("\n", nl) if nl else text)
+    if keep_mtime_of is not None:
+        os.utime(path, ns=keep_mtime_of)
+    if nl:
+        acc.hist("line_ending", repr(nl))
     comps, rel = rpuml.truth(spec)
     must_reject = not (spec.get("start_tag", True) and spec.get("end_tag", True))
     register_puml(path, comps, rel, must_reject)
@@ -114,7 +123,8 @@ def write_and_parse(spec, acc, case=None):
     except Exception:  # noqa: BLE001  (judged by the monitor)
         pass
     acc.evaluated()
-    os.unlink(path)
+    if not keep:
+        os.unlink(path)
     return text
 
 
@@ -143,7 +153,20 @@ def run_shard(spec, acc):
     rnd = random.Random(spec["seed"])
     for i in range(spec["n"]):
         s = gen_spec(rnd)
-        text = write_and_parse(s, acc)
+        if rnd.random() < 0.15:
+            s["newline"] = rnd.choice(["\r\n", "\r\n", "\r"])  # diagrams saved with Windows / old Mac line endings
+        if rnd.random() < 0.08:
+            # two different diagrams, one after the other, at the same path with the same timestamps
+            same = os.path.join(trees.scratch_dir(), "puml", "same_path.puml")
+            os.makedirs(os.path.dirname(same), exist_ok=True)
+            first = gen_spec(rnd)
+            write_and_parse(first, acc, {"kind": "diagram", "spec": first}, path=same)
+            st = os.stat(same)
+            text = write_and_parse(s, acc, {"kind": "same-path", "first": first, "spec": s}, path=same, keep_mtime_of=(st.st_atime_ns, st.st_mtime_ns))
+            os.unlink(same)
+            acc.count("rewritten_at_same_path_with_same_mtime")
+        else:
+            text = write_and_parse(s, acc)
         account(s, text, acc)
         if i % 211 == 0:
             acc.sample({"text": text, "components": s["components"], "relation": s["relation"]})
@@ -191,6 +214,14 @@ def directed(acc):
 
 
 def replay(case, acc):
+    if case.get("kind") == "same-path":
+        same = os.path.join(trees.scratch_dir(), "puml", "same_path.puml")
+        os.makedirs(os.path.dirname(same), exist_ok=True)
+        write_and_parse(case["first"], acc, {"kind": "diagram", "spec": case["first"]}, path=same)
+        st = os.stat(same)
+        write_and_parse(case["spec"], acc, case, path=same, keep_mtime_of=(st.st_atime_ns, st.st_mtime_ns))
+        os.unlink(same)
+        return
     write_and_parse(case["spec"], acc, case)
 
 
@@ -200,9 +231,11 @@ def floors(acc, tier):
         for f in forms:
             if acc.hists.get(name, {}).get(f, 0) == 0:
                 why.append(f"{name} {f} never used")
-    for c, n in (("c06_judged", 1000), ("dependor_by_alias_and_by_name", 10), ("dotted_diagrams", 50), ("c06_tagless_judged", 3), ("line_permutations", 120)):
+    for c, n in (("c06_judged", 1000), ("dependor_by_alias_and_by_name", 10), ("dotted_diagrams", 50), ("c06_tagless_judged", 3), ("line_permutations", 120), ("rewritten_at_same_path_with_same_mtime", 50)):
         if acc.counters[c] < n:
             why.append(f"{c}: only {acc.counters[c]}")
+    if acc.hists.get("line_ending", {}).get(repr("\r\n"), 0) < 50:
+        why.append("too few diagrams with CRLF line endings")
     acc.flags["exhaustive"] = bool(acc.flags.get("exhaustive_form_matrix"))
     acc.flags["exhaustive_subspaces"] = "declaration form x reference form x arrow form matrix (single and dotted names); all 120 line orders of a 5-line diagram"
     return why
